@@ -562,6 +562,7 @@ func c02Exhaustive(t *testing.T) {
 				Kinds: append([]string{}, cur...), Repeats: hx.Pick(6, 16), SecondFirst: n%5 < 2, ForeignInter: (n/3)%2 == 0, MultiValued: (n/7)%2 == 0, StepName: []string{"", "build.v2", "", "release-1.0.x"}[(n/11)%4],
 				NoRoots: (n/13)%8 == 0, Params: (n/5)%4 == 0}
 			r := &hx.Rec{}
+			hx.Journal("C02", "populations", c)
 			err := c02Eval(c, r)
 			r.Label("enumerated")
 			hx.Account("populations", "", c, r)
